@@ -40,6 +40,52 @@ const BAD_BODIES: [&str; 3] = [
     <literalExpression><text>1</text></literalExpression></decision>"##,
 ];
 
+/// Further bodies every one of which must *fail to build* (an `Err` of `ModelEvaluator::new`, neither a model nor a
+/// panic unwinding through `Workspace::deploy`): the floor under "a model that fails to build".
+const MUST_FAIL_BODIES: [(&str, &str); 4] = [
+  (
+    "two decisions requiring each other",
+    r##"
+  <decision name="A" id="_a"><variable name="A"/><informationRequirement id="_r1"><requiredDecision href="#_b"/></informationRequirement><literalExpression><text>B</text></literalExpression></decision>
+  <decision name="B" id="_b"><variable name="B"/><informationRequirement id="_r2"><requiredDecision href="#_a"/></informationRequirement><literalExpression><text>A</text></literalExpression></decision>"##,
+  ),
+  (
+    "two knowledge models requiring each other",
+    r##"
+  <businessKnowledgeModel name="F" id="_f"><variable name="F"/><encapsulatedLogic><literalExpression><text>G()</text></literalExpression></encapsulatedLogic><knowledgeRequirement id="_k1"><requiredKnowledge href="#_g"/></knowledgeRequirement></businessKnowledgeModel>
+  <businessKnowledgeModel name="G" id="_g"><variable name="G"/><encapsulatedLogic><literalExpression><text>F()</text></literalExpression></encapsulatedLogic><knowledgeRequirement id="_k2"><requiredKnowledge href="#_f"/></knowledgeRequirement></businessKnowledgeModel>
+  <decision name="D" id="_d"><variable name="D"/><knowledgeRequirement id="_k3"><requiredKnowledge href="#_f"/></knowledgeRequirement><literalExpression><text>F()</text></literalExpression></decision>"##,
+  ),
+  (
+    "an item definition with neither a type reference nor components",
+    r##"
+  <itemDefinition name="tNote"/>
+  <decision name="D" id="_d"><variable typeRef="tNote" name="D"/><literalExpression><text>1</text></literalExpression></decision>"##,
+  ),
+  (
+    "an item definition referring to itself",
+    r##"
+  <itemDefinition name="tA"><typeRef>tA</typeRef></itemDefinition>
+  <decision name="D" id="_d"><variable typeRef="tA" name="D"/><literalExpression><text>1</text></literalExpression></decision>"##,
+  ),
+];
+
+/// `vharness child c17-build`: stdin = a model text.
+pub fn build_child(input: &str) -> i32 {
+  let xml = input.to_string();
+  let r = std::panic::catch_unwind(move || dmntk_model::parse(&xml).ok().map(|d| ModelEvaluator::new(&d).is_ok()));
+  println!(
+    "{}",
+    match r {
+      Ok(Some(true)) => "ok",
+      Ok(Some(false)) => "err",
+      Ok(None) => "unparsed",
+      Err(_) => "panic",
+    }
+  );
+  0
+}
+
 #[derive(Clone, Debug, PartialEq)]
 pub struct MDef {
   pub ns: String,
@@ -227,6 +273,38 @@ pub fn run(cfg: &Cfg) -> Report {
         "ModelEvaluator::new = Ok",
         "Err",
       );
+    }
+  }
+  for (what, body) in MUST_FAIL_BODIES {
+    let xml = model_xml("nsx", "nx", body);
+    // in a child process: unbounded recursion while building aborts the process
+    let (desc, out) = crate::util::child(&["c17-build"], &xml, 60_000);
+    rep.case(&format!("floor: a model with {} does not build", what), true);
+    let r: Result<Option<bool>, String> = match (desc.as_str(), out.trim()) {
+      ("ok", "ok") => Ok(Some(true)),
+      ("ok", "err") => Ok(Some(false)),
+      ("ok", "unparsed") => Ok(None),
+      ("ok", "panic") => Err("panic in ModelEvaluator::new".to_string()),
+      (d, _) => Err(format!("the process building the model ended with {}", d)),
+    };
+    match r {
+      Ok(Some(true)) => rep.disagree(
+        Kind::ImplVsSpec,
+        "evaluable",
+        "a model that cannot be evaluated builds successfully (and becomes evaluable on deploy)",
+        &format!("{}: {}", what, xml),
+        "ModelEvaluator::new = Ok",
+        "Err",
+      ),
+      Err(got) => rep.disagree(
+        Kind::ImplVsSpec,
+        "deploy",
+        "building a model that cannot be built panics or aborts (nothing reaches Workspace::deploy's caller and the other models are not deployed)",
+        &format!("{}: {}", what, xml),
+        &got,
+        "Err",
+      ),
+      _ => {}
     }
   }
   if alpha.bad_body.is_none() {
